@@ -188,7 +188,43 @@ def check_C01(tier, seed):
                             "deep nesting family, guard-page placement. non-trivial = grammar-valid texts of >= 3 classes")
     jt_replay("C01", tier, seed, res, classes=("panic", "crash", "leak"))
     jt_record_validate("C01", tier, seed + 3, res, 4000 if tier == QUICK else 300000, checks=("panic",))
+    nest_family(res, tier)
     return res.finish()
+
+
+def nest_family(res, tier):
+    """Nest(k): the spec's nesting action iterated k times; each case in its own process (bounded stack is part of C01)."""
+    import concurrent.futures, subprocess
+    exe = build_harness()
+    depths = [100, 1000, 10000, 100000, 1000000]
+    cases = [(k, ep, d, c, t) for k in ("arr", "obj", "mixed") for ep in ("value", "lazy", "ownedlazy", "ignored", "sjvalue", "get", "array_iter")
+             for d in depths for c in (1, 0) for t in (0, 1) if not (t == 1 and d < 100000)]
+    if tier == QUICK:
+        cases = [c for c in cases if c[0] != "mixed" or c[2] >= 100000]
+
+    def one(c):
+        k, ep, d, cl, t = c
+        try:
+            p = subprocess.run([exe, "nest", "--kind", k, "--ep", ep, "--depth", str(d), "--closed", str(cl), "--thread", str(t)],
+                               stdout=subprocess.PIPE, stderr=subprocess.PIPE, text=True, timeout=300)
+            return c, p.returncode, p.stdout.strip(), p.stderr.strip()[-200:]
+        except subprocess.TimeoutExpired:
+            return c, 124, "timeout", ""
+    n = 0
+    outcomes = {}
+    with concurrent.futures.ThreadPoolExecutor(max_workers=8) as ex:
+        for c, rc, out, err in ex.map(one, cases):
+            n += 1
+            key = "ok" if rc == 0 else ("panic" if rc == 3 else "crash")
+            outcomes[key] = outcomes.get(key, 0) + 1
+            if rc != 0:
+                k, ep, d, cl, t = c
+                res.add_mismatch({"suite": "nest", "class": "crash" if rc != 3 else "panic", "ep": ep, "kind": k, "depth": d, "closed": cl, "small_stack": t, "rc": rc,
+                                  "bytes_lossy": "%s nested %d deep, %s, entry point %s" % (k, d, "closed" if cl else "unclosed", ep),
+                                  "why": "nesting depth %d (%s, %s) on %s: process ended with rc %s: %s %s" % (d, k, "closed" if cl else "unclosed", ep, rc, out, err)})
+    res.coverage["evaluations"] += n
+    res.coverage.setdefault("nest", {}).update({"cases": n, "outcomes": outcomes, "depths": depths})
+
 
 
 def lg_record_validate(prop, tier, seed, res, n, checks, exe=None):
